@@ -12,6 +12,9 @@ import time
 
 VERIF = os.path.dirname(os.path.dirname(os.path.dirname(os.path.abspath(__file__))))
 SPEC = os.path.join(VERIF, 'spec')
+import itertools
+_META_SEQ = itertools.count()
+
 JAR = '/opt/veriftools/tla/tla2tools.jar:/opt/veriftools/tla/CommunityModules-deps.jar'
 
 
@@ -82,7 +85,8 @@ def run(module, cfg, workdir, workers=16, timeout=900, coverage=False, simulate=
         mod += '.tla'
     cfgp = cfg if os.path.isabs(cfg) else os.path.join(SPEC, cfg)
     os.makedirs(workdir, exist_ok=True)
-    meta = os.path.join(workdir, 'meta-%d-%d' % (os.getpid(), int(time.time() * 1000) % 100000000))
+    # (unique also for runs started by several threads of one process within the same millisecond)
+    meta = os.path.join(workdir, 'meta-%d-%d-%d' % (os.getpid(), int(time.time() * 1000) % 100000000, next(_META_SEQ)))
     jopts = ['-XX:+UseParallelGC', '-Xmx' + heap, '-DTLA-Library=' + _libpath(), '-Djava.io.tmpdir=' + workdir]
     if dfs:
         jopts.append('-Dtlc2.tool.queue.IStateQueue=StateDeque')
